@@ -7,110 +7,263 @@ package influxql
 // parsers (the yacc parser that plans a statement on ts-sql, the hand-written parser that the
 // store uses to read the shipped text back) and the real printer.
 //
-// Doors (who accepts a text and thereby defines the planned tree e):
-//   Yc  yacc:  SELECT * FROM m WHERE <T>      e = stmt.Condition   -> ParseExpr(e.String())
-//   Yf  yacc:  SELECT <T> FROM m               e = stmt.Fields      -> ParseStatement("SELECT "+Fields.String()+" FROM mock")
-//                                                                      (this is hybridqp.ParseFields, the store side of QuerySchema)
-//   He  hand:  ParseExpr(<T>), whole text consumed                  -> ParseExpr(e.String())
-//   Hs  hand:  ParseQuery("SELECT * FROM m WHERE <T>")              -> ParseQuery(stmt.String())
-// plus, for Yc/Yf, the statement round trip yacc(stmt.String()).
-// Oracle: canonical typed tree (ParenExpr nodes removed) must be equal; the re-parse must consume the whole text.
+// Doors (who accepts a text T and thereby defines the planned tree e), and the real re-parse seam:
+//   Yc  yacc  SELECT * FROM m WHERE <T>   e = stmt.Condition -> ParseExpr(e.String())            (processor_codec.go: Condition)
+//   Yf  yacc  SELECT <T> FROM m           e = stmt.Fields    -> ParseStatement("SELECT "+Fields.String()+" FROM mock")
+//                                                               (= hybridqp.ParseFields, store side of QuerySchema / ProcessorOptions.Expr)
+//   Ys  yacc  statement of Yc             stmt.String()      -> yacc again  (statement text stored and re-planned, e.g. continuous queries)
+//   He  hand  ParseExpr(<T>), whole text consumed            -> ParseExpr(e.String())
+//   Hs  hand  ParseQuery("SELECT * FROM m WHERE <T>")        -> ParseQuery(stmt.String())
+// Oracle: canonical typed tree (ParenExpr nodes removed) equal, re-parse consumes the whole text.
+// A difference is classified by the defect that explains it (one kind per defect, several kinds if
+// several defects meet in one text); what no known defect model explains is roundtrip_mismatch /
+// print_not_reparsable / reparse_stops_early.
 
 import (
 	"fmt"
 	"math"
+	"os"
+	"runtime/debug"
 	"sort"
+	"strconv"
 	"strings"
 	"testing"
+	"time"
 
 	kit "github.com/openGemini/openGemini/lib/verifkit"
 )
 
 // ---------------------------------------------------------------- canonical form
 
-func c12Canon(e Expr) string {
-	var b strings.Builder
-	c12CanonTo(&b, e)
-	return b.String()
+// c12Norm switches on the defect models: each one erases exactly the distinction that one known
+// printer/parser defect loses.  The zero value is the strict canonical form.
+type c12Norm struct {
+	intFloat bool // integral NumberLiteral in int64 range == IntegerLiteral of that value (printed without fraction)
+	nsDur    bool // duration that is not a multiple of 1µs == the duration truncated to µs (FormatDuration)
+	reSlash  bool // regex source: any run of backslashes before '/' == one backslash
+	infIdent bool // identifier inf / nan == the float constant
+	regroup  bool // binary sub-expression without ParenExpr is re-attached by operator precedence (printed flat)
 }
 
-func c12CanonTo(b *strings.Builder, e Expr) {
+var c12AllNorm = c12Norm{true, true, true, true, true}
+
+// the harness's own precedence table (influxql.Token.Precedence() is code under test)
+func c12Prec(op Token) int {
+	switch op {
+	case OR:
+		return 1
+	case AND:
+		return 2
+	case EQ, NEQ, EQREGEX, NEQREGEX, LT, LTE, GT, GTE, IN, NOTIN:
+		return 3
+	case ADD, SUB, BITWISE_OR, BITWISE_XOR:
+		return 4
+	case MUL, DIV, MOD, BITWISE_AND:
+		return 5
+	case MATCH, MATCHPHRASE, LIKE, IPINRANGE:
+		return 6
+	}
+	return 0
+}
+
+type c12Canoner struct {
+	b []byte
+	n c12Norm
+}
+
+func c12Canon(e Expr) string { return c12CanonN(e, c12Norm{}) }
+
+func c12CanonN(e Expr, n c12Norm) string {
+	c := c12Canoner{b: make([]byte, 0, 96), n: n}
+	c.expr(e)
+	return string(c.b)
+}
+
+func (c *c12Canoner) s(x string) { c.b = append(c.b, x...) }
+
+func c12CollapseBackslashesBeforeSlash(re string) string {
+	if !strings.Contains(re, `\/`) {
+		return re
+	}
+	var out []byte
+	for i := 0; i < len(re); i++ {
+		if re[i] == '\\' {
+			j := i
+			for j < len(re) && re[j] == '\\' {
+				j++
+			}
+			if j < len(re) && re[j] == '/' {
+				out = append(out, '\\')
+				i = j - 1
+				continue
+			}
+			out = append(out, re[i:j]...)
+			i = j - 1
+			continue
+		}
+		out = append(out, re[i])
+	}
+	return string(out)
+}
+
+func (c *c12Canoner) expr(e Expr) {
 	switch n := e.(type) {
 	case nil:
-		b.WriteString("<nil>")
+		c.s("<nil>")
 	case *ParenExpr:
-		c12CanonTo(b, n.Expr)
+		c.expr(n.Expr)
 	case *BinaryExpr:
-		b.WriteString("(")
-		b.WriteString(n.Op.String())
-		b.WriteString(" ")
-		c12CanonTo(b, n.LHS)
-		b.WriteString(" ")
-		c12CanonTo(b, n.RHS)
-		if n.ReturnBool {
-			b.WriteString(" rb")
+		if c.n.regroup {
+			c.regrouped(n)
+			return
 		}
-		b.WriteString(")")
+		c.s("(")
+		c.s(n.Op.String())
+		c.s(" ")
+		c.expr(n.LHS)
+		c.s(" ")
+		c.expr(n.RHS)
+		if n.ReturnBool {
+			c.s(" rb")
+		}
+		c.s(")")
 	case *NumberLiteral:
-		if n.Val != n.Val {
-			b.WriteString("num:NaN")
-		} else {
-			fmt.Fprintf(b, "num:%016x", math.Float64bits(n.Val))
+		switch {
+		case n.Val != n.Val:
+			c.s("num:NaN")
+		case c.n.intFloat && n.Val == math.Trunc(n.Val) && n.Val >= -9223372036854775808.0 && n.Val < 9223372036854775808.0:
+			c.s("int:")
+			c.b = strconv.AppendInt(c.b, int64(n.Val), 10)
+		case c.n.intFloat && n.Val == math.Trunc(n.Val) && n.Val < -9223372036854775808.0:
+			c.s("int:-9223372036854775807") // what the yacc lexer makes of the printed digits (ParseInt error ignored)
+		default:
+			c.s("num:")
+			c.b = strconv.AppendUint(c.b, math.Float64bits(n.Val), 16)
 		}
 	case *IntegerLiteral:
-		fmt.Fprintf(b, "int:%d", n.Val)
+		c.s("int:")
+		c.b = strconv.AppendInt(c.b, n.Val, 10)
 	case *UnsignedLiteral:
-		fmt.Fprintf(b, "uint:%d", n.Val)
+		c.s("uint:")
+		c.b = strconv.AppendUint(c.b, n.Val, 10)
 	case *StringLiteral:
-		fmt.Fprintf(b, "str:%q", n.Val)
+		c.s("str:")
+		c.b = strconv.AppendQuote(c.b, n.Val)
 	case *BooleanLiteral:
-		fmt.Fprintf(b, "bool:%v", n.Val)
+		c.s("bool:")
+		c.b = strconv.AppendBool(c.b, n.Val)
 	case *DurationLiteral:
-		fmt.Fprintf(b, "dur:%d", int64(n.Val))
+		d := int64(n.Val)
+		if c.n.nsDur && d%1000 != 0 {
+			d = d / 1000 * 1000
+		}
+		c.s("dur:")
+		c.b = strconv.AppendInt(c.b, d, 10)
 	case *TimeLiteral:
-		fmt.Fprintf(b, "time:%d", n.Val.UnixNano())
+		c.s("time:")
+		c.b = strconv.AppendInt(c.b, n.Val.UnixNano(), 10)
 	case *RegexLiteral:
 		if n == nil || n.Val == nil {
-			b.WriteString("re:<nil>")
+			c.s("re:<nil>")
 		} else {
-			fmt.Fprintf(b, "re:%q", n.Val.String())
+			re := n.Val.String()
+			if c.n.reSlash {
+				re = c12CollapseBackslashesBeforeSlash(re)
+			}
+			c.s("re:")
+			c.b = strconv.AppendQuote(c.b, re)
 		}
 	case *VarRef:
-		fmt.Fprintf(b, "ref:%q:%d", n.Val, n.Type)
+		if c.n.infIdent && n.Type == Unknown {
+			switch strings.ToLower(n.Val) {
+			case "inf":
+				c.s("num:7ff0000000000000")
+				return
+			case "nan":
+				c.s("num:NaN")
+				return
+			}
+		}
+		c.s("ref:")
+		c.b = strconv.AppendQuote(c.b, n.Val)
+		c.s(":")
+		c.b = strconv.AppendInt(c.b, int64(n.Type), 10)
 	case *Call:
-		fmt.Fprintf(b, "call:%q[", n.Name)
+		c.s("call:")
+		c.b = strconv.AppendQuote(c.b, n.Name)
+		c.s("[")
 		for i := range n.Args {
 			if i > 0 {
-				b.WriteString(",")
+				c.s(",")
 			}
-			c12CanonTo(b, n.Args[i])
+			c.expr(n.Args[i])
 		}
-		b.WriteString("]")
+		c.s("]")
 	case *Wildcard:
-		fmt.Fprintf(b, "wild:%d", n.Type)
+		c.s("wild:")
+		c.b = strconv.AppendInt(c.b, int64(n.Type), 10)
 	case *NilLiteral:
-		b.WriteString("nil")
+		c.s("nil")
 	case *Distinct:
-		fmt.Fprintf(b, "distinct:%q", n.Val)
+		c.s("distinct:")
+		c.b = strconv.AppendQuote(c.b, n.Val)
 	case *SetLiteral:
 		vals := make([]string, 0, len(n.Vals))
 		for v := range n.Vals {
 			vals = append(vals, fmt.Sprintf("%T:%v", v, v))
 		}
 		sort.Strings(vals)
-		fmt.Fprintf(b, "set:%q", vals)
+		c.s(fmt.Sprintf("set:%q", vals))
 	default:
-		fmt.Fprintf(b, "%T:%q", e, e.String())
+		c.s(fmt.Sprintf("%T:%q", e, e.String()))
 	}
 }
 
-func c12CanonFields(fs Fields) string {
+// regrouped writes the tree that precedence climbing (left-associative) makes of the flat operand
+// sequence of a binary expression whose BinaryExpr children are not wrapped in ParenExpr.
+func (c *c12Canoner) regrouped(root *BinaryExpr) {
+	var operands []Expr
+	var ops []*BinaryExpr
+	var flat func(e Expr)
+	flat = func(e Expr) {
+		if b, ok := e.(*BinaryExpr); ok {
+			flat(b.LHS)
+			ops = append(ops, b)
+			flat(b.RHS)
+			return
+		}
+		operands = append(operands, e)
+	}
+	flat(root)
+	pos, opnd := 0, 0
+	var climb func(minPrec int) string
+	climb = func(minPrec int) string {
+		sub := c12Canoner{n: c.n}
+		sub.expr(operands[opnd])
+		opnd++
+		lhs := string(sub.b)
+		for pos < len(ops) && c12Prec(ops[pos].Op) >= minPrec {
+			op := ops[pos]
+			pos++
+			rhs := climb(c12Prec(op.Op) + 1)
+			rb := ""
+			if op.ReturnBool {
+				rb = " rb"
+			}
+			lhs = "(" + op.Op.String() + " " + lhs + " " + rhs + rb + ")"
+		}
+		return lhs
+	}
+	c.s(climb(0))
+}
+
+func c12CanonFields(fs Fields, n c12Norm) string {
 	var b strings.Builder
 	for i, f := range fs {
 		if i > 0 {
 			b.WriteString(" ; ")
 		}
-		c12CanonTo(&b, f.Expr)
+		b.WriteString(c12CanonN(f.Expr, n))
 		if f.Alias != "" {
 			fmt.Fprintf(&b, " AS %q", f.Alias)
 		}
@@ -121,14 +274,19 @@ func c12CanonFields(fs Fields) string {
 // ---------------------------------------------------------------- parsing under a controlled scanner state
 
 // The scanner keeps two flags across tokens (preToken, checkDOT) and Parser.reset() does not clear
-// them, so what the pooled parser of ParseExpr does with the first token depends on the previous
-// user of that parser.  The harness therefore never uses the pool: it builds a parser and sets the
-// two flags explicitly.  State 0 is a new parser; state 1 is "the previous parse ended at EOF",
-// which is what a pooled parser looks like after a complete parse; 2 and 3 add checkDOT=true.
-const c12NStates = 4
+// them, so what the pooled parser behind influxql.ParseExpr does with the first token depends on
+// the previous user of that parser.  The harness does not use the pool: it resets its own parser
+// with the production reset() and then sets the two flags explicitly.  State 0 = new parser;
+// 1 = "the previous parse ended at EOF" (a pooled parser after a complete parse); 2, 3 = the same
+// with checkDOT set.  Only a text whose first character is '/' can tell 0 from 1, and only a text
+// with a '.' can tell checkDOT, so the other states are tried only for such texts.
+var c12Parser = NewParser(strings.NewReader(""))
 
-func c12NewParser(text string, state int) *Parser {
-	p := &Parser{s: newBufScanner(strings.NewReader(text))}
+func c12ResetParser(text string, state int) *Parser {
+	p := c12Parser
+	p.reset(strings.NewReader(text))
+	p.s.s.preToken = ILLEGAL
+	p.s.s.checkDOT = false
 	if state&1 != 0 {
 		p.s.s.preToken = EOF
 	}
@@ -136,6 +294,21 @@ func c12NewParser(text string, state int) *Parser {
 		p.s.s.checkDOT = true
 	}
 	return p
+}
+
+func c12States(text string) []int {
+	t := strings.TrimLeft(text, " \t\n")
+	slash := strings.HasPrefix(t, "/")
+	dot := strings.Contains(text, ".")
+	switch {
+	case slash && dot:
+		return []int{0, 1, 2, 3}
+	case slash:
+		return []int{0, 1}
+	case dot:
+		return []int{0, 2}
+	}
+	return []int{0}
 }
 
 type c12Parsed struct {
@@ -150,7 +323,7 @@ func c12ParseExprState(text string, state int) (res c12Parsed) {
 			res = c12Parsed{err: fmt.Errorf("PANIC: %v", r)}
 		}
 	}()
-	p := c12NewParser(text, state)
+	p := c12ResetParser(text, state)
 	e, err := p.ParseExpr()
 	if err != nil {
 		return c12Parsed{err: err}
@@ -159,34 +332,14 @@ func c12ParseExprState(text string, state int) (res c12Parsed) {
 	return c12Parsed{e: e, whole: tok == EOF}
 }
 
-// c12ParseExprAll parses in every scanner state; ok is true when all states agree (same error-ness,
-// same canonical tree, same consumption).
-func c12ParseExprAll(text string) (first c12Parsed, canon string, agree bool) {
-	first = c12ParseExprState(text, 0)
-	if first.err == nil {
-		canon = c12Canon(first.e)
-	}
-	agree = true
-	for st := 1; st < c12NStates; st++ {
-		r := c12ParseExprState(text, st)
-		if (r.err == nil) != (first.err == nil) {
-			agree = false
-			continue
-		}
-		if r.err == nil && (r.whole != first.whole || c12Canon(r.e) != canon) {
-			agree = false
-		}
-	}
-	return
-}
-
 func c12Yacc(q string) (sel *SelectStatement, err error) {
 	defer func() {
 		if r := recover(); r != nil {
 			sel, err = nil, fmt.Errorf("PANIC: %v", r)
 		}
 	}()
-	y := NewYyParser(NewScanner(strings.NewReader(q)), map[string]interface{}{})
+	p := c12ResetParser(q, 0)
+	y := NewYyParser(p.GetScanner(), map[string]interface{}{})
 	y.ParseTokens()
 	qu, err := y.GetQuery()
 	if err != nil {
@@ -208,7 +361,7 @@ func c12HandQuery(q string) (sel *SelectStatement, err error) {
 			sel, err = nil, fmt.Errorf("PANIC: %v", r)
 		}
 	}()
-	p := c12NewParser(q, 0)
+	p := c12ResetParser(q, 0)
 	qu, err := p.ParseQuery()
 	if err != nil {
 		return nil, err
@@ -224,15 +377,15 @@ func c12HandQuery(q string) (sel *SelectStatement, err error) {
 }
 
 // c12ParseFields is hybridqp.ParseFields (engine/hybridqp/codec.go), which the store uses to read
-// QuerySchema.QueryFields back; it cannot be imported here (import cycle), the real one is
+// QuerySchema.QueryFields back; it cannot be imported here (import cycle); the real one is
 // exercised by the harness in lib/util/lifted/influx/query.
-func c12ParseFields(s string) (fs Fields, err error) {
+func c12ParseFields(s string, state int) (fs Fields, err error) {
 	defer func() {
 		if r := recover(); r != nil {
 			fs, err = nil, fmt.Errorf("PANIC: %v", r)
 		}
 	}()
-	p := c12NewParser("SELECT "+s+" FROM mock", 1)
+	p := c12ResetParser("SELECT "+s+" FROM mock", state)
 	st, err := p.ParseStatement()
 	if err != nil {
 		return nil, err
@@ -253,41 +406,225 @@ func c12String(n interface{ String() string }) (s string, err error) {
 	return n.String(), nil
 }
 
+// ---------------------------------------------------------------- explaining a difference by a defect model
+
+// c12Misplaced lists, for a planned tree, the binary sub-expressions that are not wrapped in a
+// ParenExpr although the flat print re-attaches them: kinds of the construction that produced them.
+func c12Misplaced(e Expr) map[string]bool {
+	kinds := map[string]bool{}
+	WalkFunc(e, func(n Node) {
+		b, ok := n.(*BinaryExpr)
+		if !ok {
+			return
+		}
+		check := func(child Expr, isRHS bool) {
+			c, ok := child.(*BinaryExpr)
+			if !ok {
+				return
+			}
+			pc, pb := c12Prec(c.Op), c12Prec(b.Op)
+			if pc < pb || (isRHS && pc == pb) {
+				lit, isInt := c.LHS.(*IntegerLiteral)
+				switch {
+				case c.Op == MUL && isInt && lit.Val == -1:
+					kinds["unary_minus_operand_regrouped"] = true
+				case (c.Op == AND || c.Op == OR) && (b.Op == AND || b.Op == OR):
+					kinds["and_or_equal_precedence_regrouped"] = true
+				default:
+					kinds["bare_subexpression_regrouped"] = true
+				}
+			}
+		}
+		check(b.LHS, false)
+		check(b.RHS, true)
+	})
+	return kinds
+}
+
+// c12Explain returns the kinds of the known defects that together account for planned != shipped,
+// or nil if they do not.
+func c12Explain(canonN func(c12Norm) (planned, shipped string), plannedExprs []Expr) []string {
+	p, s := canonN(c12AllNorm)
+	if p != s {
+		return nil
+	}
+	strictP, strictS := canonN(c12Norm{})
+	var kinds []string
+	single := func(n c12Norm) bool { q, r := canonN(n); return q != strictP || r != strictS }
+	if single(c12Norm{intFloat: true}) {
+		kinds = append(kinds, "integral_float_reparsed_as_integer")
+	}
+	if single(c12Norm{nsDur: true}) {
+		kinds = append(kinds, "sub_microsecond_duration_truncated")
+	}
+	if single(c12Norm{reSlash: true}) {
+		kinds = append(kinds, "regex_escaped_slash_escaped_again")
+	}
+	if single(c12Norm{infIdent: true}) {
+		kinds = append(kinds, "identifier_inf_nan_reparsed_as_number")
+	}
+	if single(c12Norm{regroup: true}) {
+		ks := map[string]bool{}
+		for _, e := range plannedExprs {
+			for k := range c12Misplaced(e) {
+				ks[k] = true
+			}
+		}
+		if len(ks) == 0 {
+			ks["bare_subexpression_regrouped"] = true
+		}
+		sorted := make([]string, 0, len(ks))
+		for k := range ks {
+			sorted = append(sorted, k)
+		}
+		sort.Strings(sorted)
+		kinds = append(kinds, sorted...)
+	}
+	return kinds
+}
+
+func c12Has(e Expr, pred func(Node) bool) bool {
+	found := false
+	WalkFunc(e, func(n Node) {
+		if !found && pred(n) {
+			found = true
+		}
+	})
+	return found
+}
+
+func c12LeftmostLeaf(e Expr) Expr {
+	for {
+		switch n := e.(type) {
+		case *BinaryExpr:
+			e = n.LHS
+		default:
+			return e
+		}
+	}
+}
+
+// c12ExplainFailure names the known defect behind a printed text that the re-parser rejects or
+// reads only in part; "" if none applies.  handReparser: the re-parser is the hand-written one.
+func c12ExplainFailure(planned []Expr, errText string, handReparser bool) string {
+	has := func(pred func(Node) bool) bool {
+		for _, e := range planned {
+			if c12Has(e, pred) {
+				return true
+			}
+		}
+		return false
+	}
+	if handReparser && has(func(n Node) bool {
+		b, ok := n.(*BinaryExpr)
+		return ok && (b.Op == BITWISE_AND || b.Op == BITWISE_OR || b.Op == BITWISE_XOR)
+	}) {
+		return "bitwise_operator_unknown_to_store_parser"
+	}
+	if strings.Contains(errText, "unable to parse integer") && has(func(n Node) bool {
+		l, ok := n.(*NumberLiteral)
+		return ok && l.Val == math.Trunc(l.Val) && l.Val < -9223372036854775808.0
+	}) {
+		return "integral_float_below_int64_not_reparsable"
+	}
+	if handReparser && strings.Contains(errText, "expected regex") && has(func(n Node) bool {
+		b, ok := n.(*BinaryExpr)
+		if !ok || (b.Op != EQREGEX && b.Op != NEQREGEX) {
+			return false
+		}
+		_, isRe := b.RHS.(*RegexLiteral)
+		return !isRe
+	}) {
+		return "regex_operator_with_non_regex_operand"
+	}
+	if handReparser && len(planned) > 0 {
+		if _, ok := c12LeftmostLeaf(planned[0]).(*RegexLiteral); ok {
+			return "leading_regex_not_reparsable"
+		}
+	}
+	if !handReparser && has(func(n Node) bool {
+		b, ok := n.(*BinaryExpr)
+		return ok && (b.Op == NOTIN || b.Op == MATCH || b.Op == MATCHPHRASE || b.Op == IPINRANGE)
+	}) {
+		return "statement_text_keyword_operator_not_yacc_parsable"
+	}
+	return ""
+}
+
 // ---------------------------------------------------------------- the oracle
 
 type c12Case struct {
-	Door string `json:"door"` // Yc | Yf | He | Hs
+	Door string `json:"door"` // Yc | Yf | Ys | He | Hs
 	Text string `json:"text"`
 }
 
 type c12Ctx struct {
 	rep   *kit.Report
 	doors map[string]bool
+	dump  *os.File // C12_DUMP=<file>: every violation as one line (triage aid, not used by bin/check)
+	kept  map[string]int
 }
 
-func (c *c12Ctx) vio(kind, door, text, detail string) {
+// vio records a violation; the detail text is only built while the report still keeps violations of
+// that kind in full (kit keeps 8 per kind and worker, all are counted).
+func (c *c12Ctx) vio(kind, door, text string, detail func() string) {
+	if c.kept == nil {
+		c.kept = map[string]int{}
+	}
+	c.kept[kind]++
+	d := ""
+	if c.kept[kind] <= 8 || c.dump != nil {
+		d = detail()
+	}
+	if c.dump != nil {
+		fmt.Fprintf(c.dump, "%s\t%s\t%s\t%s\n", kind, door, text, strings.ReplaceAll(d, "\n", " | "))
+	}
 	c.rep.Count("violations_door_"+door, 1)
 	c.rep.Count("kind_"+kind, 1)
-	c.rep.Violation(kind, door+": "+text, detail, c12Case{Door: door, Text: text})
+	c.rep.Violation(kind, door+": "+text, d, c12Case{Door: door, Text: text})
 }
 
-// c12ReparseExpr is the store side: the printed text is parsed with ParseExpr in every scanner state.
-// It returns "" when every state gives the planned tree, else the kind and detail of the difference.
-func c12ReparseExpr(planned Expr, want, printed string) (kind, detail string) {
-	for st := 0; st < c12NStates; st++ {
+func (c *c12Ctx) vios(kinds []string, fallback, door, text string, detail func() string) {
+	if len(kinds) == 0 {
+		c.vio(fallback, door, text, detail)
+		return
+	}
+	for _, k := range kinds {
+		c.vio(k, door, text, detail)
+	}
+}
+
+// reparseExpr is the store side: the printed text is parsed with ParseExpr in every scanner state
+// that can matter for it.  Reports at most one difference.
+func (c *c12Ctx) reparseExpr(door, text string, planned Expr, want, printed string) {
+	for _, st := range c12States(printed) {
 		r := c12ParseExprState(printed, st)
 		if r.err != nil {
-			return c12ClassifyUnparsable(planned, printed), fmt.Sprintf("printed %q does not re-parse (scanner state %d): %v\n  planned: %s", printed, st, r.err, want)
+			k := c12ExplainFailure([]Expr{planned}, r.err.Error(), true)
+			c.vios(nonEmpty(k), "print_not_reparsable", door, text,
+				func() string { return fmt.Sprintf("printed %q does not re-parse (scanner state %d): %v\n  planned: %s", printed, st, r.err, want) })
+			return
 		}
-		got := c12Canon(r.e)
 		if !r.whole {
-			return c12ClassifyEarlyStop(planned), fmt.Sprintf("printed %q is only partly consumed by ParseExpr (scanner state %d)\n  planned: %s\n  shipped: %s", printed, st, want, got)
+			k := c12ExplainFailure([]Expr{planned}, "", true)
+			c.vios(nonEmpty(k), "reparse_stops_early", door, text,
+				func() string { return fmt.Sprintf("printed %q is only partly consumed by ParseExpr (scanner state %d)\n  planned: %s\n  shipped: %s", printed, st, want, c12Canon(r.e)) })
+			return
 		}
-		if got != want {
-			return c12Classify(planned, r.e), fmt.Sprintf("printed %q (scanner state %d)\n  planned: %s\n  shipped: %s", printed, st, want, got)
+		if got := c12Canon(r.e); got != want {
+			kinds := c12Explain(func(n c12Norm) (string, string) { return c12CanonN(planned, n), c12CanonN(r.e, n) }, []Expr{planned})
+			c.vios(kinds, "roundtrip_mismatch", door, text,
+				func() string { return fmt.Sprintf("printed %q (scanner state %d)\n  planned: %s\n  shipped: %s", printed, st, want, got) })
+			return
 		}
 	}
-	return "", ""
+}
+
+func nonEmpty(k string) []string {
+	if k == "" {
+		return nil
+	}
+	return []string{k}
 }
 
 func (c *c12Ctx) check(text string) {
@@ -297,53 +634,70 @@ func (c *c12Ctx) check(text string) {
 
 	// ---- door He: hand-written expression parser
 	if c.doors["He"] {
-		first, want, agree := c12ParseExprAll(text)
+		states := c12States(text)
+		first := c12ParseExprState(text, states[0])
+		want := ""
+		if first.err == nil {
+			want = c12Canon(first.e)
+		}
+		agree := true
+		for _, st := range states[1:] {
+			r := c12ParseExprState(text, st)
+			if (r.err == nil) != (first.err == nil) || (r.err == nil && (r.whole != first.whole || c12Canon(r.e) != want)) {
+				agree = false
+			}
+		}
 		switch {
-		case first.err != nil && agree:
 		case !agree:
 			// accepted in one scanner state, rejected or read differently in another: not "a text the
 			// parser accepts"; counted, not judged (the statement is silent about it)
 			rep.Count("He_accept_depends_on_scanner_state", 1)
+		case first.err != nil:
 		case !first.whole:
 			rep.Count("He_text_partly_consumed_not_accepted", 1)
 		default:
 			accepted = true
 			rep.Count("He_accepted", 1)
-			if rep.DistinctNontrivial(kit.Hash("e", want)) {
-				rep.Sample(4, map[string]string{"door": "He", "text": text, "printed": first.e.String()})
-			}
 			printed, err := c12String(first.e)
+			if rep.DistinctNontrivial(kit.Hash("e", want)) {
+				rep.Sample(4, map[string]string{"door": "He", "text": text, "printed": printed})
+			}
 			if err != nil {
-				c.vio("printer_panic", "He", text, err.Error())
-			} else if kind, detail := c12ReparseExpr(first.e, want, printed); kind != "" {
-				c.vio(kind, "He", text, detail)
+				c.vio("printer_panic", "He", text, func() string { return err.Error() })
+			} else {
+				c.reparseExpr("He", text, first.e, want, printed)
 			}
 		}
 	}
 
-	// ---- door Yc: condition of a statement planned by the yacc parser
-	if c.doors["Yc"] {
+	// ---- doors Yc, Ys: condition of a statement planned by the yacc parser
+	if c.doors["Yc"] || c.doors["Ys"] {
 		if sel, err := c12Yacc("SELECT * FROM m WHERE " + text); err == nil && sel.Condition != nil {
 			accepted = true
-			rep.Count("Yc_accepted", 1)
 			want := c12Canon(sel.Condition)
-			if rep.DistinctNontrivial(kit.Hash("e", want)) {
-				rep.Sample(8, map[string]string{"door": "Yc", "text": text, "printed": sel.Condition.String()})
-			}
 			printed, perr := c12String(sel.Condition)
-			if perr != nil {
-				c.vio("printer_panic", "Yc", text, perr.Error())
-			} else {
-				if kind, detail := c12ReparseExpr(sel.Condition, want, printed); kind != "" {
-					c.vio(kind, "Yc", text, detail)
+			if rep.DistinctNontrivial(kit.Hash("e", want)) {
+				rep.Sample(8, map[string]string{"door": "Yc", "text": text, "printed": printed})
+			}
+			if c.doors["Yc"] {
+				rep.Count("Yc_accepted", 1)
+				if perr != nil {
+					c.vio("printer_panic", "Yc", text, func() string { return perr.Error() })
+				} else {
+					c.reparseExpr("Yc", text, sel.Condition, want, printed)
 				}
-				// statement round trip through the same front door
+			}
+			if c.doors["Ys"] {
+				rep.Count("Ys_accepted", 1)
+				planned := []Expr{sel.Condition}
 				if ss, err := c12String(sel); err != nil {
-					c.vio("printer_panic", "Yc", text, err.Error())
+					c.vio("printer_panic", "Ys", text, func() string { return err.Error() })
 				} else if sel2, err := c12Yacc(ss); err != nil {
-					c.vio(c12StmtKind(c12ClassifyUnparsable(sel.Condition, printed)), "Yc", text, fmt.Sprintf("statement %q does not re-parse: %v", ss, err))
+					c.vios(nonEmpty(c12ExplainFailure(planned, err.Error(), false)), "print_not_reparsable", "Ys", text,
+						func() string { return fmt.Sprintf("statement %q does not re-parse: %v\n  planned: %s", ss, err, want) })
 				} else if got := c12Canon(sel2.Condition); got != want {
-					c.vio(c12StmtKind(c12Classify(sel.Condition, sel2.Condition)), "Yc", text, fmt.Sprintf("statement %q\n  planned: %s\n  reparsed: %s", ss, want, got))
+					kinds := c12Explain(func(n c12Norm) (string, string) { return c12CanonN(sel.Condition, n), c12CanonN(sel2.Condition, n) }, planned)
+					c.vios(kinds, "roundtrip_mismatch", "Ys", text, func() string { return fmt.Sprintf("statement %q\n  planned: %s\n  reparsed: %s", ss, want, got) })
 				}
 			}
 		}
@@ -354,25 +708,35 @@ func (c *c12Ctx) check(text string) {
 		if sel, err := c12Yacc("SELECT " + text + " FROM m"); err == nil && len(sel.Fields) > 0 {
 			accepted = true
 			rep.Count("Yf_accepted", 1)
-			want := c12CanonFields(sel.Fields)
-			if rep.DistinctNontrivial(kit.Hash("f", want)) {
-				rep.Sample(10, map[string]string{"door": "Yf", "text": text, "printed": sel.Fields.String()})
-			}
+			want := c12CanonFields(sel.Fields, c12Norm{})
 			printed, perr := c12String(sel.Fields)
+			if rep.DistinctNontrivial(kit.Hash("f", want)) {
+				rep.Sample(10, map[string]string{"door": "Yf", "text": text, "printed": printed})
+			}
+			planned := make([]Expr, len(sel.Fields))
+			for i, f := range sel.Fields {
+				planned[i] = f.Expr
+			}
 			if perr != nil {
-				c.vio("printer_panic", "Yf", text, perr.Error())
-			} else if fs, err := c12ParseFields(printed); err != nil {
-				k := "print_not_reparsable"
-				if len(sel.Fields) == 1 {
-					k = c12ClassifyUnparsable(sel.Fields[0].Expr, printed)
+				c.vio("printer_panic", "Yf", text, func() string { return perr.Error() })
+			} else {
+				states := []int{1}
+				if strings.Contains(printed, ".") {
+					states = []int{1, 3}
 				}
-				c.vio(k, "Yf", text, fmt.Sprintf("fields %q do not re-parse with ParseFields: %v\n  planned: %s", printed, err, want))
-			} else if got := c12CanonFields(fs); got != want {
-				k := "roundtrip_mismatch"
-				if len(sel.Fields) == 1 && len(fs) == 1 {
-					k = c12Classify(sel.Fields[0].Expr, fs[0].Expr)
+				for _, st := range states {
+					fs, err := c12ParseFields(printed, st)
+					if err != nil {
+						c.vios(nonEmpty(c12ExplainFailure(planned, err.Error(), true)), "print_not_reparsable", "Yf", text,
+							func() string { return fmt.Sprintf("fields %q do not re-parse with ParseFields: %v\n  planned: %s", printed, err, want) })
+						break
+					}
+					if got := c12CanonFields(fs, c12Norm{}); got != want {
+						kinds := c12Explain(func(n c12Norm) (string, string) { return c12CanonFields(sel.Fields, n), c12CanonFields(fs, n) }, planned)
+						c.vios(kinds, "roundtrip_mismatch", "Yf", text, func() string { return fmt.Sprintf("fields %q\n  planned: %s\n  shipped: %s", printed, want, got) })
+						break
+					}
 				}
-				c.vio(k, "Yf", text, fmt.Sprintf("fields %q\n  planned: %s\n  shipped: %s", printed, want, got))
 			}
 		}
 	}
@@ -384,12 +748,15 @@ func (c *c12Ctx) check(text string) {
 			rep.Count("Hs_accepted", 1)
 			want := c12Canon(sel.Condition)
 			rep.DistinctNontrivial(kit.Hash("e", want))
+			planned := []Expr{sel.Condition}
 			if ss, err := c12String(sel); err != nil {
-				c.vio("printer_panic", "Hs", text, err.Error())
+				c.vio("printer_panic", "Hs", text, func() string { return err.Error() })
 			} else if sel2, err := c12HandQuery(ss); err != nil {
-				c.vio(c12StmtKind(c12ClassifyUnparsable(sel.Condition, ss)), "Hs", text, fmt.Sprintf("statement %q does not re-parse: %v", ss, err))
+				c.vios(nonEmpty(c12ExplainFailure(planned, err.Error(), true)), "print_not_reparsable", "Hs", text,
+					func() string { return fmt.Sprintf("statement %q does not re-parse: %v\n  planned: %s", ss, err, want) })
 			} else if got := c12Canon(sel2.Condition); got != want {
-				c.vio(c12StmtKind(c12Classify(sel.Condition, sel2.Condition)), "Hs", text, fmt.Sprintf("statement %q\n  planned: %s\n  reparsed: %s", ss, want, got))
+				kinds := c12Explain(func(n c12Norm) (string, string) { return c12CanonN(sel.Condition, n), c12CanonN(sel2.Condition, n) }, planned)
+				c.vios(kinds, "roundtrip_mismatch", "Hs", text, func() string { return fmt.Sprintf("statement %q\n  planned: %s\n  reparsed: %s", ss, want, got) })
 			}
 		}
 	}
@@ -399,126 +766,6 @@ func (c *c12Ctx) check(text string) {
 	} else {
 		rep.Count("texts_rejected_by_every_door", 1)
 	}
-}
-
-func c12StmtKind(k string) string { return k }
-
-// ---------------------------------------------------------------- classification of a difference
-// (a kind names one defect; anything not recognised is roundtrip_mismatch / print_not_reparsable)
-
-type c12Leaf struct {
-	canon string
-	node  Expr
-}
-
-// c12Skeleton returns the tree with leaves replaced by "_" and the leaves in order.
-func c12Skeleton(e Expr) (string, []c12Leaf) {
-	var b strings.Builder
-	var leaves []c12Leaf
-	var walk func(Expr)
-	walk = func(x Expr) {
-		switch n := x.(type) {
-		case *ParenExpr:
-			walk(n.Expr)
-		case *BinaryExpr:
-			b.WriteString("(" + n.Op.String() + " ")
-			walk(n.LHS)
-			b.WriteString(" ")
-			walk(n.RHS)
-			if n.ReturnBool {
-				b.WriteString(" rb")
-			}
-			b.WriteString(")")
-		case *Call:
-			fmt.Fprintf(&b, "call:%q[", n.Name)
-			for i, a := range n.Args {
-				if i > 0 {
-					b.WriteString(",")
-				}
-				walk(a)
-			}
-			b.WriteString("]")
-		default:
-			b.WriteString("_")
-			leaves = append(leaves, c12Leaf{c12Canon(x), x})
-		}
-	}
-	walk(e)
-	return b.String(), leaves
-}
-
-func c12IsIntegralFloat(e Expr) (float64, bool) {
-	n, ok := e.(*NumberLiteral)
-	if !ok || math.IsInf(n.Val, 0) || math.IsNaN(n.Val) || n.Val != math.Trunc(n.Val) {
-		return 0, false
-	}
-	return n.Val, true
-}
-
-func c12Classify(planned, shipped Expr) string {
-	sa, la := c12Skeleton(planned)
-	sb, lb := c12Skeleton(shipped)
-	if sa == sb && len(la) == len(lb) {
-		diff, intFloat, other := 0, 0, 0
-		for i := range la {
-			if la[i].canon == lb[i].canon {
-				continue
-			}
-			diff++
-			if f, ok := c12IsIntegralFloat(la[i].node); ok {
-				switch m := lb[i].node.(type) {
-				case *IntegerLiteral:
-					if float64(m.Val) == f {
-						intFloat++
-						continue
-					}
-				case *UnsignedLiteral:
-					if float64(m.Val) == f {
-						intFloat++
-						continue
-					}
-				}
-			}
-			other++
-		}
-		if diff > 0 && other == 0 && intFloat == diff {
-			return "integral_float_reparsed_as_integer"
-		}
-		if diff > 0 {
-			return "literal_changed"
-		}
-	}
-	if len(la) == len(lb) {
-		same := true
-		for i := range la {
-			if la[i].canon != lb[i].canon {
-				same = false
-			}
-		}
-		if same {
-			return "grouping_changed"
-		}
-	}
-	return "roundtrip_mismatch"
-}
-
-// c12HasOp reports whether the planned tree contains a binary operator for which pred holds.
-func c12HasOp(e Expr, pred func(Token) bool) bool {
-	found := false
-	WalkFunc(e, func(n Node) {
-		if b, ok := n.(*BinaryExpr); ok && pred(b.Op) {
-			found = true
-		}
-	})
-	return found
-}
-
-func c12ClassifyEarlyStop(planned Expr) string {
-	return "reparse_stops_early"
-}
-
-func c12ClassifyUnparsable(planned Expr, printed string) string {
-	return "print_not_reparsable"
 }
 
 // ---------------------------------------------------------------- the grammar
@@ -553,9 +800,13 @@ var c12BinOps = []string{"+", "-", "*", "/", "%", "&", "|", "^", "=", "!=", "<>"
 
 // reduced alphabets for the deeper levels
 var c12Atoms3 = []string{"a", `"a b"`, `'it\'s'`, "1", "2.0", "1.5", "5m", `/a\/b/`, "f(a, 1)", "true", "-a", "-2.0", "a::tag"}
-var c12Atoms4Quick = []string{"a", "1", "2.0", "'x'"}
+var c12Atoms4Quick = []string{"a", "1", "1.5", "'x'"}
 var c12Ops4Quick = []string{"OR", "AND", "=", "!=", "<", "+", "-", "*", "/", "%", "&"}
-var c12Atoms4Thorough = []string{"a", "1", "2.0", "'x'", "-a", "5m"}
+var c12Atoms4Thorough = []string{"a", "1", "1.5", "'x'", "-a", "5m"}
+
+// comparisons as operands of AND / OR (what a WHERE clause is made of)
+var c12Conds = []string{"a = 1", "b != 'x'", "c < 1.5", "t =~ /x/", "(d >= 2)", "f(a) > 0", "a + 1 > b * 2", "NOT a = 1"}
+var c12LogicOps = []string{"AND", "OR"}
 
 // parenthesisations of an operand sequence ("parentheses at every position")
 func c12Paren3(a, o1, b, o2, c string, emit func(string)) {
@@ -568,22 +819,24 @@ func c12Paren4(a, o1, b, o2, c, o3, d string, emit func(string)) {
 	ab := a + " " + o1 + " " + b
 	bc := b + " " + o2 + " " + c
 	cd := c + " " + o3 + " " + d
-	emit(ab + " " + o2 + " " + cd)                                // flat
-	emit("(" + ab + ") " + o2 + " " + cd)                         // (ab) c d
-	emit(a + " " + o1 + " (" + bc + ") " + o3 + " " + d)          // a (bc) d
-	emit(ab + " " + o2 + " (" + cd + ")")                         // a b (cd)
-	emit("(" + ab + ") " + o2 + " (" + cd + ")")                  // (ab)(cd)
-	emit("(" + ab + " " + o2 + " " + c + ") " + o3 + " " + d)     // (abc) d
-	emit(a + " " + o1 + " (" + bc + " " + o3 + " " + d + ")")     // a (bcd)
-	emit("((" + ab + ") " + o2 + " " + c + ") " + o3 + " " + d)   // ((ab)c)d
-	emit("(" + a + " " + o1 + " (" + bc + ")) " + o3 + " " + d)   // (a(bc))d
-	emit(a + " " + o1 + " ((" + bc + ") " + o3 + " " + d + ")")   // a((bc)d)
-	emit(a + " " + o1 + " (" + b + " " + o2 + " (" + cd + "))")   // a(b(cd))
+	emit(ab + " " + o2 + " " + cd)                              // flat
+	emit("(" + ab + ") " + o2 + " " + cd)                       // (ab) c d
+	emit(a + " " + o1 + " (" + bc + ") " + o3 + " " + d)        // a (bc) d
+	emit(ab + " " + o2 + " (" + cd + ")")                       // a b (cd)
+	emit("(" + ab + ") " + o2 + " (" + cd + ")")                // (ab)(cd)
+	emit("(" + ab + " " + o2 + " " + c + ") " + o3 + " " + d)   // (abc) d
+	emit(a + " " + o1 + " (" + bc + " " + o3 + " " + d + ")")   // a (bcd)
+	emit("((" + ab + ") " + o2 + " " + c + ") " + o3 + " " + d) // ((ab)c)d
+	emit("(" + a + " " + o1 + " (" + bc + ")) " + o3 + " " + d) // (a(bc))d
+	emit(a + " " + o1 + " ((" + bc + ") " + o3 + " " + d + ")") // a((bc)d)
+	emit(a + " " + o1 + " (" + b + " " + o2 + " (" + cd + "))") // a(b(cd))
 }
 
 func c12Enumerate(rep *kit.Report, thorough bool, check func(string)) {
 	block := 0
-	mine := func() bool { block++; return kit.Mine(block - 1) }
+	// blocks are dealt to workers by a hash of their number: neighbouring blocks differ a lot in cost
+	mine := func() bool { block++; return kit.Mine(int(kit.Hash("block", strconv.Itoa(block)) % (1 << 30))) }
+	maxOps := os.Getenv("C12_MAXOPS")
 
 	// level 0/1: every atom, with unary operators and parentheses
 	for _, a := range c12Atoms {
@@ -625,21 +878,45 @@ func c12Enumerate(rep *kit.Report, thorough bool, check func(string)) {
 			check("b = 1 OR " + a + " " + s)
 		}
 	}
-	for _, s := range []string{"match(a, 'x y')", "matchphrase(a, 'x y')", "ipinrange(a, '1.2.3.0/24')", "match(\"a b\", 'it\\'s')", "match(a, 'x') AND b = 2.0"} {
+	for _, s := range []string{"match(a, 'x y')", "matchphrase(a, 'x y')", "ipinrange(a, '1.2.3.0/24')", "match(\"a b\", 'it\\'s')", "match(a, 'x') AND b = 1.5"} {
 		if mine() {
 			check(s)
 		}
 	}
-	// level 2 (three operands), reduced alphabet, all operators, all parenthesisations
+	// comparisons joined by AND / OR: three and four operands, every parenthesisation
+	for _, a := range c12Conds {
+		for _, o1 := range c12LogicOps {
+			for _, b := range c12Conds {
+				if !mine() {
+					continue
+				}
+				check(a + " " + o1 + " " + b)
+				for _, o2 := range c12LogicOps {
+					for _, c := range c12Conds {
+						c12Paren3(a, o1, b, o2, c, check)
+						for _, o3 := range c12LogicOps {
+							for _, d := range c12Conds {
+								c12Paren4(a, o1, b, o2, c, o3, d, check)
+							}
+						}
+					}
+				}
+			}
+		}
+	}
+	if maxOps == "2" {
+		return
+	}
+	// three operands, reduced alphabet, all operators, all parenthesisations
 	for _, a := range c12Atoms3 {
 		for _, o1 := range c12BinOps {
-			if !mine() {
-				continue
-			}
-			if rep.Expired() {
-				return
-			}
 			for _, b := range c12Atoms3 {
+				if !mine() {
+					continue
+				}
+				if rep.Expired() {
+					return
+				}
 				for _, o2 := range c12BinOps {
 					for _, c := range c12Atoms3 {
 						c12Paren3(a, o1, b, o2, c, check)
@@ -647,6 +924,9 @@ func c12Enumerate(rep *kit.Report, thorough bool, check func(string)) {
 				}
 			}
 		}
+	}
+	if maxOps == "3" {
+		return
 	}
 	// four operands (depth 2 balanced and depth 3 chains), all 11 parenthesisations
 	atoms4, ops4 := c12Atoms4Quick, c12Ops4Quick
@@ -656,13 +936,13 @@ func c12Enumerate(rep *kit.Report, thorough bool, check func(string)) {
 	for _, a := range atoms4 {
 		for _, o1 := range ops4 {
 			for _, b := range atoms4 {
-				if !mine() {
-					continue
-				}
-				if rep.Expired() {
-					return
-				}
 				for _, o2 := range ops4 {
+					if !mine() {
+						continue
+					}
+					if rep.Expired() {
+						return
+					}
 					for _, c := range atoms4 {
 						for _, o3 := range ops4 {
 							for _, d := range atoms4 {
@@ -679,17 +959,29 @@ func c12Enumerate(rep *kit.Report, thorough bool, check func(string)) {
 func TestVerifC12(t *testing.T) {
 	rep := kit.NewReport("C12")
 	defer rep.Save()
-	ctx := &c12Ctx{rep: rep, doors: map[string]bool{"He": true, "Yc": true, "Yf": true, "Hs": true}}
+	start := time.Now()
+	debug.SetGCPercent(2000) // millions of tiny short-lived trees: the default target makes the collector the main cost
+	ctx := &c12Ctx{rep: rep, doors: map[string]bool{"He": true, "Yc": true, "Yf": true, "Ys": true, "Hs": true}}
 	if kit.ReplayPath() != "" {
 		var c c12Case
 		if err := kit.LoadReplay(&c); err != nil {
 			t.Fatal(err)
 		}
-		if c.Door != "" {
-			ctx.doors = map[string]bool{c.Door: true}
+		if c.Door == "" {
+			return // a case of another C12 harness
 		}
+		ctx.doors = map[string]bool{c.Door: true}
 		ctx.check(c.Text)
 		return
 	}
+	if p := os.Getenv("C12_DUMP"); p != "" {
+		f, err := os.Create(p)
+		if err != nil {
+			t.Fatal(err)
+		}
+		defer f.Close()
+		ctx.dump = f
+	}
 	c12Enumerate(rep, kit.Thorough(), ctx.check)
+	rep.Max("max_worker_seconds_influxql", int64(time.Since(start).Seconds()))
 }
